@@ -106,8 +106,8 @@ def made(pid=None):
     # for C08 and C11 only (DESIGN.md 8.2: what C07 demands after a RemoveFabric that answered Failure is not settled)
     if pid in ("C08", "C11"):
         kf, R, P = {"op": "KvFail", "k": 0}, {"op": "Restart"}, (lambda c: {"op": "Pase", "c": c})
-        s.append([com(1), C(1, "arm"), C(1, "label"), kf, C(1, "complete"), rd(1), w(3000), R, rd(1)])          # F-C08e
-        s.append([com(1), com(2, False), kf, C(2, "complete"), rd(2), w(61000), rd(2), R, rd(2), rd(1)])       # F-C08e
+        s.append([com(1), C(1, "arm"), C(1, "label"), kf, C(1, "complete"), rd(1), w(3000), R, rd(1)])          # F-C08e (repaired)
+        s.append([com(1), com(2, False), kf, C(2, "complete"), rd(2), w(61000), rd(2), R, rd(2), rd(1)])       # F-C08e (repaired)
         s.append([com(1), com(2), kf, C(1, "remove", idx=2), rd(1), w(3000), R, rd(1), rd(2)])
         s.append([com(1), kf, C(1, "label"), rd(1), w(3000), R, rd(1), C(1, "label"), R, rd(1)])
         s.append([com(1), com(2, False), kf, w(61000), rd(1), rd(2)])
@@ -140,7 +140,7 @@ def foreign_pase(r):
 
 def failed_complete(r):
     """The rejected state follows a CommissioningComplete that answered Failure because its store write failed (KvFail
-    injected right before it) and shows the fail-safe idle (open finding F-C08e)."""
+    injected right before it) and shows the fail-safe idle (F-C08e, repaired: the signature names the regression)."""
     ops = [x for x in r["run"][:r["at"]] if x.get("ev") == "Op"]
     e = r["event"]
     return (len(ops) >= 2 and ops[-1].get("op") == "Cmd" and ops[-1].get("cmd") == "complete" and ops[-1].get("code") == "ERR Failure"
@@ -169,14 +169,14 @@ def run(pid, tier, seed):
     sens = {}
     kvmc = None
     if pid in ("C08", "C11"):
-        # the same model with store failures injected: the other invariants must hold, CommittedOrUndone must be violated (F-C08e)
+        # the same model with store failures injected: the invariants must hold; the variant as found must violate CommittedOrUndone (F-C08e)
         kvmc = vlib.tlc_mc(pid, "Life.tla", "MCLifeKv.cfg", workers=8, timeout=1800, tag="kv")
         if not kvmc["ok"]:
             raise vlib.ToolError("Life.tla with store failures violates its invariants (%s):\n%s" % (kvmc["violated"], kvmc["out_tail"]))
         r = vlib.tlc_mc(pid, "Life.tla", "MCLifeKv_CommittedOrUndone.cfg", workers=4, timeout=900, tag="kv_cou")
         if r["ok"]:
-            raise vlib.ToolError("Life.tla with store failures does not show the failed CommissioningComplete (CommittedOrUndone holds)")
-        sens["CommittedOrUndone (store failures; the code as it is, open finding F-C08e)"] = r["violated"]
+            raise vlib.ToolError("Life.tla transcribed from the code as found, with store failures, does not violate CommittedOrUndone")
+        sens["CommittedOrUndone (store failures)"] = r["violated"]
     for inv in own:
         r = vlib.tlc_mc(pid, "Life.tla", "MCLife_orig_%s.cfg" % inv, workers=4, timeout=900, tag="orig_" + inv)
         if r["ok"]:
